@@ -45,6 +45,7 @@ structure St where
   specChecked : Nat := 0
   specDiffs : List String := []
   refs : Std.HashMap String RefSt := {}
+  pinned : Bool := false                           -- transcript of files written by the pinned release (frozen corpus)
   parMul : Nat := 1                                -- inside `par k`: each command of the body runs k times
   digests : Std.HashMap String String := {}      -- reference content digest per merge output name
   vcaches : Std.HashMap String VCache := {}
@@ -66,6 +67,18 @@ def mapsStr (maps : List (List (Option Nat))) : String :=
   if maps.isEmpty then "none" else
   "|".intercalate (maps.map (fun m => if m.isEmpty then "-" else
     ".".intercalate (m.map (fun o => match o with | none => "x" | some d => toString d))))
+
+/-- The pinned release's merge (before fix D11) copied doc values only from the inputs whose
+    dictionary for the field is non-empty.  Used for the frozen corpus only: what those files hold
+    is what that release wrote. -/
+def pinnedDv (segs : List Seg) (maps : List (List (Option Nat))) (m : Seg) : Seg :=
+  if m.numDocs = 0 then m else
+  { m with fields := m.fields.map (fun f =>
+      let focus := (segs.zip maps).filter (fun p => !(p.1.dictTerms f.name).isEmpty)
+      let parts := focus.filterMap (fun p => match p.1.field? f.name with
+        | none => none
+        | some g => g.dv.map (fun dv => dvMerge p.2 dv))
+      { f with dv := if parts.isEmpty then none else some (parts.flatMap id) }) }
 
 def dropsOf (c : Cmd) (k : Nat) : List (Option (List Nat)) :=
   let parts := (c.getD "drops" "").splitOn "|"
@@ -202,6 +215,19 @@ def queryObs (st : St) (c : Cmd) : St × Verdict :=
     | "docid" => (st, .exact (match s.docID ((c.arg 2).toNat?.getD 0) with | none => "nil" | some b => hx b))
     | "docnums" => (st, .exact (natList "," (s.docNumbers (unhxList (c.getD "ids" "-")))))
     | "dv" => let (st, o) := dvObs st s tag c; (st, .exact o)
+    | "dvspec" =>
+      -- the property itself (C06), not the model of the merge: a survivor's doc values are those of
+      -- its source document `src=<segment>:<doc>` in the input it came from
+      match (c.getD "src" "").splitOn ":" with
+      | [sn, sd] =>
+        match st.segs.get? sn with
+        | some (src, stag) =>
+          let c' : Cmd := { c with kv := c.kv.map (fun p => if p.1 == "doc" then ("doc", sd) else p),
+                                   pos := c.pos.set 2 "-" }
+          let (_, o) := dvObs st src stag c'
+          (st, .exact o)
+        | none => (st, .exact "scripterror:nosrc")
+      | _ => (st, .exact "scripterror:src")
     | "thesterms" =>
       let terms := s.thesTerms (strBytes (c.arg 2))
       let probe := unhxList (c.getD "probe" "-")
@@ -338,6 +364,7 @@ def commandObs (st : St) (c : Cmd) : St × Verdict :=
   | "cfg" =>
     let st := match c.get? "chunkmode" with | some v => { st with mode := v.toNat?.getD st.mode } | none => st
     let st := match c.get? "dvchunk" with | some v => { st with dvChunk := v.toNat?.getD st.dvChunk } | none => st
+    let st := match c.get? "pinned" with | some v => { st with pinned := v == "1" } | none => st
     (st, .none)
   | "validator" =>
     let a := c.arg 0
@@ -401,6 +428,8 @@ def commandObs (st : St) (c : Cmd) : St × Verdict :=
     let drops := dropsOf c names.length
     let mode := c.nat "mode" st.mode
     let (m, maps) := mergeSegs st.vectors mode segs drops
+    -- files of the frozen corpus were MERGED by the pinned release, i.e. before fix D11
+    let m := if st.pinned then pinnedDv segs maps m else m
     let okStr := s!"ok maps={if m.numDocs = 0 then "nil" else mapsStr maps} szeq=1"
     let st' := { st with files := st.files.insert (c.arg 0) m, fileBatch := st.fileBatch.erase (c.arg 0),
                          d3 := if m.numDocs = 0 ∧ (mergedFieldNames segs).length ≥ 2 then st.d3.insert (c.arg 0) true else st.d3 }
